@@ -1,12 +1,12 @@
 #!/bin/bash
-# run the property's quick check against every stored seeded change; write seeded/RESULTS.md
+# run the property's quick check against every stored seeded change; write seeded/RESULTS.auto.md (seeded/RESULTS.md is the annotated table kept by hand)
 cd /verif
-echo "| seed | property | vcheck exit | outcome |" > seeded/RESULTS.md
-echo "|------|----------|-------------|---------|" >> seeded/RESULTS.md
+echo "| seed | property | vcheck exit | outcome |" > seeded/RESULTS.auto.md
+echo "|------|----------|-------------|---------|" >> seeded/RESULTS.auto.md
 for d in seeded/*-m*; do
   id=$(basename $d); prop=${id%%-*}
   out=$(tools/seed_check.sh $prop /verif/$d/patch.diff 2>&1); e=$(echo "$out" | grep -o "exit=[0-9]*" | tail -1 | cut -d= -f2)
   case $e in 1) o="VIOLATION (detected)";; 2) o="UNDECIDED: $(echo "$out" | grep UNDECIDED | head -1 | cut -c1-140)";; 0) o="missed";; *) o="error";; esac
-  echo "| $id | $prop | $e | $o |" >> seeded/RESULTS.md
+  echo "| $id | $prop | $e | $o |" >> seeded/RESULTS.auto.md
   echo "$id $e"
 done
